@@ -617,7 +617,8 @@ class SamplingMethod(DirectMethod):
         # Represent polynomial as a BSpline object (https://gitlab.kuleuven.be/meco-software/rockit/-/blob/v0.1.28/rockit/splines/spline.py#L392)
         degree = coeff.shape[1]-1
         basis = BSplineBasis([0]*(degree+1)+[1]*(degree+1),degree)
-        tscale = self.T / self.N / self.M
+        # length of this integrator step (control intervals need not be equal)
+        tscale = (self.control_grid[k + 1] - self.control_grid[k])/self.M
         tpower = vcat([tscale**i for i in range(degree+1)])
         coeff = coeff * repmat(tpower.T,stage.nx,1)
         # TODO: bernstein transformation as function of degree
